@@ -48,6 +48,13 @@ type Adv struct {
 	// Replay segments earlier arrives once more (the network reordered or
 	// duplicated it): an old acknowledgement carries an old window and offers nothing new
 	Replay int `json:"replay,omitempty"`
+	// OldSeq: this answer travels as a keep-alive probe (RFC 1122 4.2.3.6: sequence
+	// number one below the peer's SND.NXT), i.e. on a segment older than the last
+	// one by sequence number although its acknowledgement and window are current
+	OldSeq bool `json:"old_seq,omitempty"`
+	// Data > 0: the answer carries that many bytes of the peer's own data (its
+	// sequence numbers advance, and with PeerISS placed they cross a wrap point)
+	Data int `json:"data,omitempty"`
 }
 
 type SendCase struct {
@@ -64,6 +71,10 @@ type SendCase struct {
 	// H2), at most the bytes written below 2^31 / 2^32: always when hosted by C14's plan
 	PlaceISS bool   `json:"place_iss,omitempty"`
 	StackISS uint32 `json:"stack_iss,omitempty"`
+	// PlacePeer: the scripted peer's initial sequence number is PeerISS (next to a wrap
+	// point) instead of a random one: the stack's SND.WL1 bookkeeping meets the wrap
+	PlacePeer bool   `json:"place_peer,omitempty"`
+	PeerISS   uint32 `json:"peer_iss,omitempty"`
 }
 
 type offer struct {
@@ -98,13 +109,18 @@ func runSend(c SendCase) *evid.Failure {
 	var p *rawpeer.Peer
 	o := rawpeer.SynOpts{MSS: c.MSS, WS: c.WS, TS: c.TS, SACKPerm: c.Env.SACK}
 	var offers []offer
+	peerISS := uint32(c.Seed)
+	if c.PlacePeer {
+		peerISS = c.PeerISS
+		evid.Label("send:peer-iss-placed-next-to-a-wrap-point")
+	}
 	if c.Active {
 		cs, err := netsim.NewSock(env.Stack, 6, env.Net())
 		if err != nil {
 			return nil
 		}
 		s = cs
-		p = env.Peer(0, 80, uint32(c.Seed))
+		p = env.Peer(0, 80, peerISS)
 		p.Wnd = uint16(c.InitWnd)
 		done := make(chan bool, 1)
 		if c.PlaceISS {
@@ -135,7 +151,7 @@ func runSend(c SendCase) *evid.Failure {
 		offers = append(offers, offer{tInj, uint32(c.InitWnd)})
 	} else {
 		tInj := time.Now()
-		l, as, pp, err := env.Passive(80, 50000, uint32(c.Seed), o, uint16(c.InitWnd))
+		l, as, pp, err := env.Passive(80, 50000, peerISS, o, uint16(c.InitWnd))
 		if l != nil {
 			defer l.EP.Close()
 		}
@@ -379,7 +395,16 @@ func runSend(c SendCase) *evid.Failure {
 		if dbg {
 			fmt.Printf("ack acked=%d field=%d scale=%d edge=%d (adv %+v)\n", acked, field, scale, newEdge, adv)
 		}
-		p.Ack()
+		if adv.Data > 0 && !adv.OldSeq {
+			p.Send(codec.TCPSeg{Seq: p.SndNxt, Ack: p.RcvNxt, Flags: codec.ACK | codec.PSH, Wnd: p.Wnd, Payload: make([]byte, adv.Data)})
+			p.SndNxt += uint32(adv.Data)
+			evid.Label("send:answer-carries-peer-data")
+		} else if adv.OldSeq {
+			p.Send(codec.TCPSeg{Seq: p.SndNxt - 1, Ack: p.RcvNxt, Flags: codec.ACK, Wnd: p.Wnd})
+			evid.Label("send:answer-on-a-keepalive-probe")
+		} else {
+			p.Ack()
+		}
 		if adv.Replay > 0 && len(p.Sent) > adv.Replay {
 			if old := p.Sent[len(p.Sent)-1-adv.Replay].Seg; old.Flags == codec.ACK && len(old.Payload) == 0 {
 				p.Send(old)
@@ -464,6 +489,15 @@ func genSend(rt *rapid.T) SendCase {
 			c.StackISS = 1<<31 - k
 		}
 	}
+	if forceWrap || rapid.IntRange(0, 4).Draw(rt, "place-peer") == 1 {
+		c.PlacePeer = true
+		k := uint32(rapid.OneOf(rapid.IntRange(0, 3), rapid.IntRange(0, 600)).Draw(rt, "peer_iss_k"))
+		if rapid.Bool().Draw(rt, "peer_iss_32") {
+			c.PeerISS = 0 - k
+		} else {
+			c.PeerISS = 1<<31 - k
+		}
+	}
 	m := rapid.IntRange(0, 30).Draw(rt, "nadvs")
 	for i := 0; i < m; i++ {
 		var a Adv
@@ -474,6 +508,10 @@ func genSend(rt *rapid.T) SendCase {
 		a.Every = rapid.IntRange(1, 3).Draw(rt, "every")
 		a.Lose = rapid.IntRange(0, 9).Draw(rt, "lose") == 0
 		a.Replay = rapid.SampledFrom([]int{0, 0, 0, 0, 1, 2, 5}).Draw(rt, "replay")
+		a.OldSeq = rapid.IntRange(0, 5).Draw(rt, "old-seq") == 1
+		if c.PlacePeer && rapid.IntRange(0, 2).Draw(rt, "peer-data") == 1 {
+			a.Data = rapid.SampledFrom([]int{1, 10, 200}).Draw(rt, "peer-data-len")
+		}
 		if rapid.IntRange(0, 5).Draw(rt, "pmtu") == 0 {
 			lo := 576
 			if c.Env.V6 {
